@@ -34,7 +34,9 @@ def get_crate(mir_paths):
     c = _CTX.get(key)
     if c is None:
         L = Layouts()
-        for rel in common.CRATES.values():
+        for cname, rel in common.CRATES.items():
+            if cname == 'mimium_cli' and not any('/mimium_cli.' in p for p in mir_paths):
+                continue
             L.scan_dir(os.path.join(common.REPO, rel, 'src'))
         c = Crate([MirFile(p) for p in mir_paths], L, common.REPO)
         errs = vmdriver.check_layout(L) + hostwasm.check_layout(L)
